@@ -21,7 +21,7 @@ COMMON_ASSUMPTIONS = [
 CACHE_RULE = "cache-level histories on the real %s driven one scheduling segment at a time by the baton scheduler (virtual clock, controllable cleanup ticker, recorded callbacks): after EVERY segment the result, the callbacks and a full snapshot (store entries with deadlines, expiry buckets, charges, used, max_cost, sketch rows, doorkeeper words, get-ring, buffer and queue lengths, metrics, closed flags) are compared with the Coq model; hash-map iteration orders and select! arms are reported by the implementation and checked for legality by the model; "
 PROPS = {
     'C01': {
-        'suites': [('policy', 600, 6000, ''), ('stress', 100, 1000, '')],
+        'suites': [('policy', 600, 6000, ''), ('stress', 60, 600, '')],
         'rule': "policy-level histories (adds with costs clustered around the remaining room, cost-changing updates, removes, update_max_cost up/down, clears) on the real LFUPolicy through the facade; state (used, key_costs, max_cost, metrics, sketch, doorkeeper) compared with the model after every step; non-trivial = the case entered the eviction loop at least once; distinct = distinct operation/observation sequences",
         'assumptions': COMMON_ASSUMPTIONS + ["costs are non-negative (the property's quantifier)"],
         'partial': "i64 boundary (D10) excluded by hypothesis; cache-level lifting (every cache step touches the policy only through these operations) is checked by the cache-level correspondence of C06",
@@ -45,7 +45,7 @@ PROPS = {
         'partial': "the false-positive-rate clause is decided by the structural theorems (bits are addressed injectively, add sets exactly the probe positions, contains checks exactly them, the array is the smallest power of two >= the design size) plus a deterministic measurement on the implementation with well-mixed hashes (alarm threshold 10 p + 0.01); a probabilistic theorem about seahash is out of reach",
     },
     'C03': {
-        'suites': [('cacheq', 300, 3000, ''), ('cachet', 150, 1500, ''), ('cacheqa', 100, 1000, ''), ('cacher', 150, 1500, ''), ('stress', 100, 1000, '')],
+        'suites': [('cacheq', 300, 3000, ''), ('cachet', 150, 1500, ''), ('cacheqa', 100, 1000, ''), ('cacher', 150, 1500, ''), ('stress', 60, 600, '')],
         'rule': CACHE_RULE % "Cache and AsyncCache" + "TTLs from {1 ns, 0.5 s, 999 999 999 ns, 1 s, 1 s + 1 ns, 1.5 s, 2.3 s, 59 s, 1 h}, clock advances that land on and around second boundaries, re-inserts switching TTL <-> none, neighbours sharing expiry seconds; monitors: nothing served at or after created+ttl, get_ttl = remaining, no-TTL entries always served; non-trivial = every case (>= 20 operations with quiescence between them)",
         'assumptions': COMMON_ASSUMPTIONS + ["the clock is monotone (elapsed().unwrap() panics otherwise; modelled as StepPanic)", "created + d < 2^64 ns"],
         'partial': "",
@@ -57,25 +57,25 @@ PROPS = {
         'partial': "the real-time firing of the ticker ('plus one cleanup interval') is not modelled: ticks are labels; the listing invariant and the reclamation theorems are proved for collision-free runs (every conflict hash 0); an item written before a cleanup, already due at it and admitted only afterwards is reclaimed by the next cleanup (hypothesis no_stale_admission of C05_listings_stay_later_than_the_last_cleanup)",
     },
     'C09': {
-        'suites': [('cachet', 300, 3000, ''), ('cacheq', 100, 1000, ''), ('cacheqa', 100, 1000, ''), ('defaults', 1, 1, ''), ('cachec', 150, 1500, ''), ('stress', 100, 1000, '')],
+        'suites': [('cachet', 300, 3000, ''), ('cacheq', 100, 1000, ''), ('cacheqa', 100, 1000, ''), ('defaults', 1, 1, ''), ('cachec', 150, 1500, ''), ('stress', 60, 600, '')],
         'rule': CACHE_RULE % "Cache and AsyncCache" + "validators {always, never, new > old, new mod 3 != old mod 3}, insert_if_present on absent / removed / expired-unswept / still-buffered keys; monitor: insert_if_present on a non-resident key leaves the snapshot bit-for-bit unchanged",
         'assumptions': COMMON_ASSUMPTIONS,
         'partial': "",
     },
     'C10': {
-        'suites': [('caches', 400, 4000, ''), ('cachesa', 200, 2000, ''), ('cachel', 200, 2000, ''), ('stress', 100, 1000, '')],
+        'suites': [('caches', 400, 4000, ''), ('cachesa', 200, 2000, ''), ('cachel', 200, 2000, ''), ('stress', 60, 600, '')],
         'rule': CACHE_RULE % "Cache and AsyncCache" + "three client threads, random interleavings at every yield point (between store update and buffer send, inside the processor's item handling, around the stop handshakes), buffer sizes {1, 2, 3, 16}, wait / clear / close racing; blocked clients are diagnosed from state: a client that never comes back is a MONITOR hit; monitor: what a client sent before a wait() that returned Ok is resident or handed back",
         'assumptions': COMMON_ASSUMPTIONS + ["weak fairness of select! for 'returns in finite time' (the theorem is: never stranded + the processor can always take the next item)"],
         'partial': "finite-time return needs fairness of the randomised select!, which is an assumption about crossbeam / futures",
     },
     'C11': {
-        'suites': [('caches', 400, 4000, ''), ('cachesa', 200, 2000, ''), ('cachel', 200, 2000, ''), ('cachecfg', 100, 1000, ''), ('stress', 100, 1000, '')],
+        'suites': [('caches', 400, 4000, ''), ('cachesa', 200, 2000, ''), ('cachel', 200, 2000, ''), ('cachecfg', 100, 1000, ''), ('stress', 60, 600, '')],
         'rule': CACHE_RULE % "Cache and AsyncCache" + "clear() issued with 0..buffer-size items buffered, select! arms as the implementation picks them, key re-use after clear with another TTL or none followed by ticks at the old bucket; monitors: values inserted before a completed clear() are not retrievable by lookups that began after it, empty cache at quiescence if nothing was inserted since",
         'assumptions': COMMON_ASSUMPTIONS,
         'partial': "",
     },
     'C12': {
-        'suites': [('caches', 400, 4000, ''), ('cachesa', 200, 2000, ''), ('cachel', 300, 3000, ''), ('cachecfg', 100, 1000, ''), ('defaults', 1, 1, ''), ('stress', 100, 1000, '')],
+        'suites': [('caches', 400, 4000, ''), ('cachesa', 200, 2000, ''), ('cachel', 300, 3000, ''), ('cachecfg', 100, 1000, ''), ('defaults', 1, 1, ''), ('stress', 60, 600, '')],
         'rule': CACHE_RULE % "Cache and AsyncCache" + "close() racing other operations and other close() calls; monitors: after close() returned Ok every operation that begins is inert and leaves the snapshot unchanged, both workers have left their loops, no client is stuck",
         'assumptions': COMMON_ASSUMPTIONS,
         'partial': "async flavour: close() returns once the stop message is buffered; that the processor then takes it needs fairness of select! (the theorem is: exited or the stop message is pending); OS thread exit and the exit of workers when every handle is dropped without close() are runtime behaviour (observed by the harness: suite defaults drops every handle of both flavours without close() and waits for both workers' exit notes), not theorems",
@@ -87,49 +87,49 @@ PROPS = {
         'partial': "",
     },
     'C18': {
-        'suites': [('cachec', 300, 3000, ''), ('keys', 1, 1, ''), ('defaults', 1, 1, '')],
+        'suites': [('cachec', 300, 3000, ''), ('keys', 1, 1, ''), ('defaults', 1, 1, ''), ('stress', 60, 600, '')],
         'rule': CACHE_RULE % "Cache" + "a key builder that lets histories force index collisions (same index, conflict 1 / 2 / wildcard 0); monitor: a lookup never returns a value written under the other conflict; plus the 'keys' suite: TransparentKeyBuilder on every supported integer type (boundary, negative, random values) against the model, DefaultKeyBuilder determinism and String/&str agreement (tested, not modelled)",
         'assumptions': COMMON_ASSUMPTIONS + ["DefaultKeyBuilder (seahash + seeded xxh64) and std::hash are not modelled: determinism and borrowed-form agreement are tested by the harness"],
         'partial': "determinism of DefaultKeyBuilder is a test of an unmodelled function",
     },
     'C06': {
-        'suites': [('caches', 500, 5000, ''), ('cachesa', 250, 2500, ''), ('cachet', 150, 1500, ''), ('stress', 100, 1000, '')],
+        'suites': [('caches', 500, 5000, ''), ('cachesa', 250, 2500, ''), ('cachet', 150, 1500, ''), ('stress', 60, 600, '')],
         'rule': CACHE_RULE % "Cache and AsyncCache" + "three client threads, random interleavings at every yield point (between policy.add and store.try_insert, before each victim, between policy.remove and store.try_remove of a Delete and of a sweep, inside clear), evictions, rejections, sweeps, clears; snapshot equality after every segment checks both sides of the agreement; monitor: at every quiescent point resident keys = charged keys; the corpus replays known finding D9 (index collision)",
         'assumptions': COMMON_ASSUMPTIONS + ["keys are told apart by their index hash (all conflict hashes 0): with colliding keys the statement is false (known finding D9, machine-checked witness C06_collision_refuted)", "no remove reported an error (a Delete lost to a full insert buffer): the property's own exclusion"],
         'partial': "",
     },
     'C20': {
-        'suites': [('cachecfg', 400, 4000, ''), ('sketch', 150, 1500, ''), ('bloom', 150, 1500, ''), ('keys', 1, 1, ''), ('ticker', 1, 1, ''), ('defaults', 1, 1, ''), ('stress', 100, 1000, '')],
+        'suites': [('cachecfg', 400, 4000, ''), ('sketch', 150, 1500, ''), ('bloom', 150, 1500, ''), ('keys', 1, 1, ''), ('ticker', 1, 1, ''), ('defaults', 1, 1, ''), ('stress', 60, 600, '')],
         'rule': CACHE_RULE % "Cache and AsyncCache" + "configurations drawn from num_counters {1..70, 127, 129, 1000}, max_cost {-5, 1, 2, 57, 100, 300}, insert buffer {1, 2, 3, 16}, buffer_items {0, 1, 2, 3, 64}, metrics on/off, ignore_internal_cost on/off, both flavours, followed by inserts (with TTL), lookups, removes, ticks, evictions, clear, close; any panic in a client call or in a worker is caught by the harness (catch_unwind in every actor) and reported; a worker that died shows up as a state divergence or a stuck client; plus the builder's validation (keys suite: zero num_counters / max_cost / buffer size in every combination, on both builders) and sketch/doorkeeper construction for widths 0..70, 127, 129, 1000",
         'assumptions': COMMON_ASSUMPTIONS + ["the clock is monotone (SystemTime going backwards makes Time::elapsed panic: outside the property's quantifier)", "key hashes are u64", "doorkeeper sizing: probes * 2^ceil(log2(max(entries,512))) <= 2^64, i.e. the filter fits in memory"],
         'partial': "'any positive cleanup interval': the ticker is a label in the model and a controllable channel in the cache suites; the real timers are exercised by the suite ticker for two intervals only (a measurement with loose bounds, not a theorem); memory exhaustion for huge num_counters is outside the model",
     },
     'C15': {
-        'suites': [('cachet', 300, 3000, ''), ('caches', 300, 3000, ''), ('cachesa', 150, 1500, ''), ('tlfu', 100, 1000, ''), ('stress', 100, 1000, '')],
+        'suites': [('cachet', 300, 3000, ''), ('caches', 300, 3000, ''), ('cachesa', 150, 1500, ''), ('tlfu', 100, 1000, ''), ('stress', 60, 600, '')],
         'rule': CACHE_RULE % "Cache and AsyncCache" + "buffer_items drawn from {0, 1, 2, 3, 64} so that flushes happen every lookup, every few lookups, or never; lookups of resident, absent, expired and removed keys; the policy worker scheduled late so that the bounded(3) queue fills and batches are dropped, and after close; the pending batch (get-ring), the queue length, gets_kept / gets_dropped and the sketch rows / doorkeeper words are part of every compared snapshot; monitor: gets_kept + gets_dropped + pending = lookups made (quiescent profiles)",
         'assumptions': COMMON_ASSUMPTIONS + ["one ring stripe: the sync ring is a pool of RingStripe objects (object-pool crate) and the async one a single mutex-protected stripe; the harness runs clients one segment at a time, so one stripe is in use (which pool slot a thread gets is runtime behaviour)", "key hashes are u64"],
         'partial': "which stripe of the pool a concurrent client obtains is not modelled (each stripe obeys the same theorems; the accounting theorem is per stripe)",
     },
     'C17': {
-        'suites': [('cachet', 400, 4000, ''), ('caches', 300, 3000, ''), ('cachesa', 150, 1500, ''), ('cachecfg', 100, 1000, ''), ('policy', 200, 2000, ''), ('stress', 100, 1000, '')],
+        'suites': [('cachet', 400, 4000, ''), ('caches', 300, 3000, ''), ('cachesa', 150, 1500, ''), ('cachecfg', 100, 1000, ''), ('policy', 200, 2000, ''), ('stress', 60, 600, '')],
         'rule': CACHE_RULE % "Cache and AsyncCache" + "all eleven counters and the life-expectancy histogram (count, sum, min, max, every bucket) are part of every compared snapshot; cost-decreasing updates (two's-complement CostAdd), evictions, rejections, sweeps, removes, dropped inserts (buffer sizes 1-3), clear; monitors at quiescence: hits + misses = lookups, keys_added - keys_evicted = charged entries, cost_added - cost_evicted = used (wrapping), sets_dropped = inserts of non-resident keys that returned false, histogram count = sum of buckets = evictions of tracked entries since the last clear; the corpus replays D11 (fixed)",
         'assumptions': COMMON_ASSUMPTIONS + ["counters are wrapping u64s: the conservation theorems are equalities modulo 2^64", "no single cost decrease exceeds 2^64 (DeltaOk; it cannot for i64 costs whose difference does not overflow, D10)", "fewer than num_to_keep = 100000 tracked keys (the pruning of start_ts iterates a HashMap and is not modelled)"],
         'partial': "ratio() = hits / (hits + misses) is f64 arithmetic over the two modelled counters: computed and compared by the harness (suite cachet), not a Coq statement; striping of each counter over 256 atomics is abstracted to its sum (stripe index (hash % 25) * 10 < 256)",
     },
     'C19': {
-        'suites': [('cachepair', 200, 2000, ''), ('cacheqa', 200, 2000, ''), ('cachesa', 200, 2000, ''), ('cachecfg', 100, 1000, ''), ('defaults', 1, 1, ''), ('stress', 100, 1000, '')],
+        'suites': [('cachepair', 200, 2000, ''), ('cacheqa', 200, 2000, ''), ('cachesa', 200, 2000, ''), ('cachecfg', 100, 1000, ''), ('defaults', 1, 1, ''), ('stress', 60, 600, '')],
         'rule': CACHE_RULE % "Cache and AsyncCache" + "suite cachepair: every case is one scripted quiescent history (inserts with TTL / costers / validators, updates, lookups, removes, max-cost changes, clock advances, ticks, clear, close, evictions and rejections under tight max_cost) run on Cache and on AsyncCache with the same seeds and the same deterministic internal hasher; each run is compared step by step with the model (flavour flag off / on) and the two runs are compared with each other: every return value, remaining TTL, callback multiset and the full quiescent snapshot (store, expiry buckets, charges, metrics, histogram, sketch, doorkeeper) must be identical; suites cacheqa / cachesa / cachecfg drive the async flavour alone (quiescent, scheduled, every configuration) against the same model as the sync flavour",
         'assumptions': COMMON_ASSUMPTIONS + ["executor: the harness supplies a thread-per-task spawner and steps the two background tasks in every order its scheduler draws; other executors (single-threaded pool, multi-threaded pool) change only which OS thread polls a task between yield points, which the model does not distinguish"],
         'partial': "'any executor supplied as spawner' is runtime behaviour: one spawner (thread per task, block_on) is exercised, with every polling order of the two background tasks at yield-point granularity; 'satisfies every property above' holds because the theorems of C01-C18, C20 are proved for the one transition function that serves both flavours",
     },
     'C02': {
-        'suites': [('caches', 400, 4000, ''), ('cachesa', 200, 2000, ''), ('cacheq', 150, 1500, ''), ('cachet', 150, 1500, ''), ('cachec', 100, 1000, ''), ('defaults', 1, 1, '')],
+        'suites': [('caches', 400, 4000, ''), ('cachesa', 200, 2000, ''), ('cacheq', 150, 1500, ''), ('cachet', 150, 1500, ''), ('cachec', 100, 1000, ''), ('defaults', 1, 1, ''), ('stress', 60, 600, '')],
         'rule': CACHE_RULE % "Cache and AsyncCache" + "three client threads writing, removing, clearing and looking up the same 3-7 keys with every write carrying a unique value, parked at every yield point (between the store update and the buffer send, between policy.add and store.try_insert, before each victim, inside the sweep), evictions, expiry, clear and close racing; monitors: a lookup returned a value written under another key / a value nobody wrote, a lookup returned a value handed to a callback earlier, a value inserted before a completed clear() is retrievable after it, and in quiescent profiles (cacheq, cachet) the oracle of writes: a lookup returns exactly the last value written with its remaining TTL",
         'assumptions': COMMON_ASSUMPTIONS + ["'never rolled back' is proved for collision-free runs (every conflict hash 0, as with TransparentKeyBuilder; with colliding keys see known finding D9); 'values belong to their key' is proved for every run, index = key"],
         'partial': "'never a value written before the latest remove(k) that had taken effect' is proved in two halves — remove() takes the entry out in its first step, and a resident value is only ever replaced by a later client write to that key — plus the clear() theorem of C11; the exact-last-value clause at quiescence is decided by the oracle monitor on the implementation and the state-by-state correspondence, its refinement theorem is C04's",
     },
     'C08': {
-        'suites': [('caches', 400, 4000, ''), ('cachel', 400, 4000, ''), ('cachesa', 200, 2000, ''), ('cachet', 150, 1500, ''), ('stress', 100, 1000, '')],
+        'suites': [('caches', 400, 4000, ''), ('cachel', 400, 4000, ''), ('cachesa', 200, 2000, ''), ('cachet', 150, 1500, ''), ('stress', 60, 600, '')],
         'rule': CACHE_RULE % "Cache and AsyncCache" + "every write carries a unique value; updates racing evictions, removes racing admissions, sweeps, rejections, validator vetoes, dropped inserts; suite cachel is lifecycle-heavy (half inserts, the rest wait / clear / close / remove from three clients, both flavours) so that inserts straddle the clear and the stop handshake of close(); callbacks are recorded and compared step by step; monitors: a value handed to callbacks twice, an accepted value neither resident nor handed back nor dropped by clear / overwritten in place (at quiescence), a lookup returning a value after it was handed back; the corpus replays known finding D9 (index collision: an admitted value silently declined by the store)",
         'assumptions': COMMON_ASSUMPTIONS + ["keys are told apart by their index hash (every conflict hash 0): with colliding keys the statement is false (known finding D9, machine-checked witness C08_collision_refuted)", "a get_mut write replaces the value in place: the overwritten value is dropped by the assignment, not by the cache (counted under 'lost', like the values clear() drops)"],
         'partial': "",
